@@ -30,6 +30,11 @@ func c03docN(maxN, maxE int) *sbom.Document {
 		}
 		nl.Nodes = append(nl.Nodes, nd)
 	}
+	// identity attributes both formats support, next to one only SPDX has (listed first)
+	hv := rt.NondetString("hash")
+	rt.Assume(rt.StrPlain(hv))
+	nl.Nodes[n-1].Hashes = map[int32]string{int32(sbom.HashAlgorithm_SHA224): "onlyspdx", int32(sbom.HashAlgorithm_SHA256): hv, int32(sbom.HashAlgorithm_SHA1): "sha"}
+	nl.Nodes[n-1].Identifiers = map[int32]string{int32(sbom.SoftwareIdentifierType_PURL): "pkg:generic/" + hv}
 	is := ids(nl)
 	types := []sbom.Edge_Type{sbom.Edge_contains, sbom.Edge_dependsOn, sbom.Edge_buildTool}
 	ne := rt.NondetLen("ne", maxE)
@@ -206,7 +211,16 @@ func c03readback(s *rt.Stream, want *sbom.NodeList, site string) {
 	for _, w := range want.Nodes {
 		found := false
 		for _, g := range got.NodeList.Nodes {
-			found = rt.Or(found, rt.And(g.Id == w.Id, g.Name == w.Name, g.Version == w.Version))
+			same := rt.And(g.Id == w.Id, g.Name == w.Name, g.Version == w.Version)
+			for _, algo := range []int32{int32(sbom.HashAlgorithm_SHA256), int32(sbom.HashAlgorithm_SHA1)} {
+				if v, has := w.Hashes[algo]; has {
+					same = rt.And(same, g.Hashes[algo] == v)
+				}
+			}
+			if v, has := w.Identifiers[int32(sbom.SoftwareIdentifierType_PURL)]; has {
+				same = rt.And(same, g.Identifiers[int32(sbom.SoftwareIdentifierType_PURL)] == v)
+			}
+			found = rt.Or(found, same)
 		}
 		ok = rt.And(ok, found)
 	}
